@@ -81,7 +81,7 @@ func runC06(w *World) *Result {
 	r := NewResult("C06")
 	r.Explanation = "Enumerates every typed slot of the parser's tree – each Expression/[]Expression/Statement-typed field of every node constructed anywhere in the parser (composite literals and constructor calls) – and decides for the SSA value stored there that the predicate its position requires (table in the checker: Bool, Int, String, Slice, same-type + operator-allowed, equals the declared/parameter/return type incl. arity, non-void) is established on every path to the construction: the stored value is resolved backwards to its origins (parse results, list elements, nodes the parser synthesises with a fixed type), type information is derived forwards from each origin only (never through a node built from it), and the control-flow graph with the passing edges of the matching tests removed must not reach the construction (tests on the same SSA condition are kept consistent along a path); guards in loops over value lists, guards through a node's delegated type after construction, and guards in the function that produced the list are followed. Second line of defence and target independence: both converters accept exactly the operator cells the parser tables allow, the parser imports no converter, Parse's error dominates the first converter use in Transpile."
 	r.NotDecided = "acceptance of every well-typed program (needs the whole grammar); the text of error messages."
-	r.Rule("R-C06-slot", "every typed slot is guarded by the predicate its position requires", 44)
+	r.Rule("R-C06-slot", "every typed slot is guarded by the predicate its position requires", 20)
 	r.Rule("R-C06-second", "converters' operator cells = parser tables (minus string ordering); both converters agree", 60)
 	r.Rule("R-C06-target", "front end independent of the target; converter untouched before Parse succeeded", 3)
 	pf, err := BuildParserFacts(w)
